@@ -1100,7 +1100,7 @@ package leveldb
 //@ func (*DB).releaseSnapshot
 //@   props C03
 //@   safety off
-//@   requires se != nil && se.ref >= 1
+//@   requires se != nil
 //@   ensures [C03:one-reference-given-back] se.ref == old(se.ref) - 1
 //@   ensures [C03:unlisted-exactly-at-zero] calls("list.List.Remove") == old(calls("list.List.Remove")) + (old(se.ref) == 1 ? 1 : 0)
 //@ func (*DB).acquireSnapshot
@@ -1151,3 +1151,36 @@ package leveldb
 //@   at before call (*Batch).appendRec#1
 //@     assume [C20:merged-record-does-not-point-into-the-scratch-batch] !sameblock(incoming.key, ourBatch.data) && !sameblock(incoming.value, ourBatch.data) && len(incoming.key) <= 1099511627776 && len(incoming.value) <= 1099511627776 && len(ourBatch.data) <= 1099511627776
 //@     assert [C20:callers-batch-not-extended] recv != batch || old(ourBatch) == batch
+
+// C11 (isolation): reads through a transaction layer the transaction's own buffer and tables over the DB state at
+// its start sequence; reads of everybody else (DB.Get / Has, snapshots) are never given a transaction's buffers.
+//@ func (*Transaction).Get
+//@   props C11
+//@   safety off
+//@   at before call (*DB).get#1
+//@     assert [C11:transaction-reads-its-own-writes-over-its-start-state] arg0 == tr.mem.DB && sameslice(arg1, tr.tables) && arg3 == tr.seq
+//@ func (*Transaction).Has
+//@   props C11
+//@   safety off
+//@   at before call (*DB).has#1
+//@     assert [C11:transaction-reads-its-own-writes-over-its-start-state] arg0 == tr.mem.DB && sameslice(arg1, tr.tables) && arg3 == tr.seq
+//@ func (*DB).Get
+//@   props C11 C03
+//@   safety off
+//@   at before call (*DB).get#1
+//@     assert [C03,C11:reads-at-the-registered-sequence-and-sees-no-transaction-buffers] arg0 == nil && isnil(arg1) && arg3 == se.seq
+//@ func (*DB).Has
+//@   props C11 C03
+//@   safety off
+//@   at before call (*DB).has#1
+//@     assert [C03,C11:reads-at-the-registered-sequence-and-sees-no-transaction-buffers] arg0 == nil && isnil(arg1) && arg3 == se.seq
+//@ func (*Snapshot).Get
+//@   props C11 C03
+//@   safety off
+//@   at before call (*DB).get#1
+//@     assert [C03,C11:snapshot-reads-at-its-own-sequence-and-sees-no-transaction-buffers] arg0 == nil && isnil(arg1) && arg3 == snap.elem.seq
+//@ func (*Snapshot).Has
+//@   props C11 C03
+//@   safety off
+//@   at before call (*DB).has#1
+//@     assert [C03,C11:snapshot-reads-at-its-own-sequence-and-sees-no-transaction-buffers] arg0 == nil && isnil(arg1) && arg3 == snap.elem.seq
